@@ -7,7 +7,7 @@ CHECKS = {
     "C01": dict(
         technique="explicit-state BFS (fork-expanded, canonical dedup) + deviation-bounded enumeration over real PrimaiteGymEnv.step/reset",
         text="Real PrimaiteGymEnv objects on every member of the generated scenario family GEN (routed and firewall topologies, "
-             "flattened/nested, masked/unmasked, ~127-entry action maps containing every registered action type aimed at existing, "
+             "flattened/nested, masked/unmasked, ~146-entry action maps containing every registered action type aimed at existing, "
              "missing and powered-off targets) and on the shipped scenarios (data_manipulation, UC7, UC7-TAP003, the three episode "
              "schedules): BFS over {every action index, reset(), reset(seed)} and all executions with <=k departures from a default "
              "script that crosses truncation, one step beyond it and a second episode. The step/reset contract (no exception, obs, "
